@@ -530,7 +530,9 @@ def _any(a, dim=None, keepdim=False):
 
 @op("aten.isnan.default")
 def _isnan(a):
-    return T(_full(a.shape, False), dtype=torch.bool)
+    def f(x):
+        return bool(isinstance(x, S) and x.isinf and isinstance(x.n, Fraction) and x.n == 0)
+    return T(_ew1(f)(D(a)), dtype=torch.bool)
 
 
 @op("aten.isfinite.default")
@@ -1257,6 +1259,25 @@ def _clamp_max(a, max):
 @op("aten.relu.default")
 def _relu(a):
     return _clamp(a, min=0)
+
+
+@op("aten.remainder.Scalar", "aten.remainder.Tensor")
+def _remainder(a, b):
+    """floor-mod on concrete values only"""
+    a, b = _bc(a, b)
+
+    def f(x, y):
+        cx_, cy = (x.const() if isinstance(x, S) else None), (y.const() if isinstance(y, S) else None)
+        if cx_ is None or cy is None:
+            raise Inconclusive("remainder of symbolic values")
+        import math
+        return S(cx_ - cy * math.floor(cx_ / cy))
+    return T(_ew(f)(a, b), dtype=FLOAT)
+
+
+@op("aten.floor.default", "aten.trunc.default", "aten.ceil.default")
+def _floor(a):
+    raise Inconclusive("floor/trunc/ceil of a float tensor (only reached with symbolic values here)")
 
 
 @op("aten.sort.default", "aten.sort.stable")
